@@ -24,7 +24,12 @@ def enc(op, rng, mode):
     if mode == 0: imm = bytes(n)
     elif mode == 1: imm = bytes(n - 1) + bytes([rng.randrange(1, 256)])
     elif mode == 2: imm = b"\xff" * n
-    else: imm = bytes(rng.randrange(256) for _ in range(n))
+    elif mode == 3: imm = bytes(rng.randrange(256) for _ in range(n))
+    else:
+        # leading zero bytes followed by k >= 2 significant bytes (not a palindrome)
+        k = rng.randrange(2, n + 1) if n >= 2 else n
+        sig = bytes([rng.randrange(1, 256)]) + bytes(rng.randrange(256) for _ in range(k - 1))
+        imm = bytes(n - k) + sig
     return bytes([op]) + imm
 
 
@@ -32,12 +37,12 @@ def cases(rng, tier):
     cs = []
     ops = defined_ops()
     for op in ops:
-        for mode in range(4 if S.imm_len(op) else 1):
+        for mode in range(5 if S.imm_len(op) else 1):
             cs.append({"line": f"lst {enc(op, rng, mode).hex()}", "tags": ["single"]})
     n = 200 if tier == "quick" else 4000
     for _ in range(n):
         k = rng.choice([1, 2, 3, 5, 10, 30, 100, 300]) if tier == "thorough" else rng.choice([1, 2, 3, 5, 10, 30, 100])
-        bs = b"".join(enc(rng.choice(ops), rng, rng.randrange(4)) for _ in range(k))
+        bs = b"".join(enc(rng.choice(ops), rng, rng.randrange(5)) for _ in range(k))
         cs.append({"line": f"lst {bs.hex()}", "tags": ["stream"]})
     return cs
 
